@@ -1,4 +1,78 @@
-import EudoxiaModel.Proofs.Reach
+import EudoxiaModel.Proofs.Lift
+import EudoxiaModel.Model.Obs
+/-! # C04 — memory limits hold after every tick and reported usage is the real usage -/
 namespace Eudoxia.C04
-theorem placeholder : True := trivial
+open Eudoxia
+
+/-- **C04.1–C04.3 (full strength).**  In every world reachable under arbitrary command sequences, at every tick boundary,
+in every pool: no running container uses more memory than it was allocated (and none is finished or frozen), the usage
+the pool reports is the sum of the current use of its running containers, and it does not exceed the pool's capacity. -/
+theorem limits_and_reported_usage {w0 w : World} (g0 : w0.AllPools PoolGoodMem) (h : Reach w0 w) :
+    ∀ p ∈ w.pools,
+      (∀ c ∈ p.active, c.mem ≤ c.ram ∧ c.completed = false ∧ c.frozen = false) ∧
+      p.consumed = memSum p.active ∧ p.consumed ≤ p.capR := by
+  intro p hp
+  obtain ⟨_, m⟩ := reach_lift poolGoodMem_tick h g0 p hp
+  exact ⟨fun c hc => ⟨(m.ok c hc).2.2, (m.ok c hc).1, (m.ok c hc).2.1⟩, m.sum, m.cap⟩
+
+/-- a freshly configured executor satisfies the hypothesis -/
+theorem fresh_world_good (cfg : Cfg) (npools cpus ram : Nat) :
+    ({ cfg := cfg, pools := List.replicate npools (Pool.fresh cpus ram) } : World).AllPools PoolGoodMem := by
+  intro p hp
+  have := List.eq_of_mem_replicate hp
+  subst this
+  exact ⟨⟨poolInv_fresh _ _ _, by simp [Pool.NonNeg, Pool.fresh]⟩, memOK_fresh _ _⟩
+
+/-- a pool with no running container reports zero -/
+theorem idle_pool_reports_zero (p : Pool) (m : MemOK p) (h : p.active = []) : p.consumed = 0 := by
+  rw [m.sum, h]; rfl
+
+/-- **C04.4a — kills are justified.**  The killer's first step kills exactly the containers whose own demand exceeds their own
+allocation; its second (pool-level) step does nothing unless the usage that is left still exceeds the pool's capacity. -/
+theorem kills_are_justified {w w' : Store} {p p' : Pool} (hnd : (cids p.active).Nodup) (hT : ∀ c ∈ p.active, CtrTicked c)
+    (hs : p.consumed = memSum p.active) (h : oomKiller w p = .ok (w', p')) :
+    ∃ act1, act1 = p.active.map (fun c => if c.mem > c.ram then killedCtr c else c) ∧ (memSum act1 ≤ p.capR → p'.active = act1) :=
+  (oomKiller_mem hnd hT hs h).2.2.2
+
+/-- **C04.4b — without overcommit a container that stays within its allocation is never killed**: the usage left after the
+first step is at most the allocated RAM, which without overcommit is at most the capacity, so the pool-level step never runs. -/
+theorem no_overcommit_no_innocent_kill {cfg : Cfg} {w w' : Store} {p p' : Pool} {n : Nat} (ho : cfg.overcommit = false)
+    (g : p.Good cfg n) (hT : ∀ c ∈ p.active, CtrTicked c) (hs : p.consumed = memSum p.active)
+    (h : oomKiller w p = .ok (w', p')) :
+    p'.active = p.active.map (fun c => if c.mem > c.ram then killedCtr c else c) := by
+  have hnd : (cids p.active).Nodup := (List.nodup_append.mp g.1.nodup).1
+  obtain ⟨act1, e1, himp⟩ := kills_are_justified hnd hT hs h
+  rw [← e1]
+  apply himp
+  -- after step 1 everybody is within the own allocation (or killed, using nothing)
+  have hle : memSum act1 ≤ ramSum act1 := by
+    apply memSum_le_ramSum
+    intro c hc
+    rw [e1] at hc
+    obtain ⟨x, _, rfl⟩ := List.mem_map.mp hc
+    split
+    · simp [killedCtr]
+    · rename_i hx; omega
+  have hram : ramSum act1 = ramSum p.active := by
+    apply ramSum_keys
+    rw [e1, List.map_map]
+    apply List.map_congr_left
+    intro x _
+    simp only [Function.comp]; split <;> rfl
+  have h1 := g.1.ram
+  have h2 := g.2.2 ho
+  have h3 := ramSum_nonneg p.suspending
+  omega
+
+theorem isum_map_mem (l : List Ctr) : isum ((l.map Ctr.toObs).map (fun c => (c.mem : Int))) = memSum l := by
+  simp [isum, memSum, Ctr.toObs, List.map_map, Function.comp_def]
+
+/-- the checker evaluated on implementation traces (`memoryOkB`, clause memory-limits of `check_C04`) accepts every state that satisfies the invariant -/
+theorem checker_accepts_invariant {p : Pool} (m : MemOK p) : memoryOkB p.toObs = true := by
+  unfold memoryOkB Pool.toObs
+  simp only [isum_map_mem, Bool.and_eq_true, List.all_eq_true, decide_eq_true_eq, beq_iff_eq, List.mem_map]
+  refine ⟨⟨?_, m.sum⟩, m.cap⟩
+  rintro _ ⟨c, hc, rfl⟩
+  exact (m.ok c hc).2.2
+
 end Eudoxia.C04
